@@ -147,6 +147,11 @@ def twosite_job(job):
     chain.add_nn_hamiltonian(0, cl, cr)
     chain.add_nn_hamiltonian(0, cl2, cr2)
     chain.add_site_dissipation(1, lind, gamma)
+    # a two-site dissipator with generic complex (non-normal) operators on both sites
+    nl = r.normal(size=(2, 2)) + 1j * r.normal(size=(2, 2))
+    nr = r.normal(size=(2, 2)) + 1j * r.normal(size=(2, 2))
+    gamma2 = 0.2
+    chain.add_nn_dissipation(0, nl, nr, gamma2)
     rho_a, rho_b = probes.generic_rho(2, seed), probes.generic_rho(2, seed + 1)
     tebd = oqupy.PtTebd(oqupy.AugmentedMPS([rho_a.copy(), rho_b.copy()]), chain, [None, None],
                         oqupy.PtTebdParameters(dt=ce.DT, order=order, epsrel=1e-13), dynamics_sites=[(0, 1), 0, 1])
@@ -161,6 +166,8 @@ def twosite_job(job):
         return np.kron(np.eye(4), op.T)
     liou = -1j * (lsup(hfull) - rsup(hfull)) + gamma * (lsup(a) @ rsup(a.conj().T)
                                                         - 0.5 * lsup(a.conj().T @ a) - 0.5 * rsup(a.conj().T @ a))
+    a2 = np.kron(nl, nr)
+    liou = liou + gamma2 * (lsup(a2) @ rsup(a2.conj().T) - 0.5 * lsup(a2.conj().T @ a2) - 0.5 * rsup(a2.conj().T @ a2))
     rho = np.kron(rho_a, rho_b).reshape(-1)
     out = []
     for k in range(n + 1):
